@@ -27,6 +27,9 @@ type Cluster struct {
 	// Cut[a][b]: node a cannot reach node b (consulted for follower progress)
 	Connected func(a, b int) bool
 	Elections int
+	// FailApplies: the next n Apply calls on the leader fail with ErrEnqueueTimeout and commit nothing
+	// (hashicorp/raft's answer when its apply queue stays full for the caller's timeout)
+	FailApplies int
 }
 
 var cluster *Cluster
@@ -537,6 +540,11 @@ func (r *Raft) Apply(cmd []byte, timeout time.Duration) ApplyFuture {
 	if !r.c.canReachMajority(r) {
 		r.c.Reevaluate()
 		return errFuture{ErrLeadershipLost}
+	}
+	if r.c.FailApplies > 0 {
+		r.c.FailApplies--
+		r.c.Sim.Count("fault.raft_apply_failed")
+		return errFuture{ErrEnqueueTimeout}
 	}
 	e := &Log{Index: r.c.CommitIndex() + 1, Term: r.c.Term, Type: LogCommand, Data: append([]byte(nil), cmd...), AppendedAt: time.Now()}
 	r.c.Log = append(r.c.Log, e)
